@@ -37,11 +37,12 @@ type Cfg struct {
 	MaxWrites int      `json:"max_writes"`
 	MaxSnaps  int      `json:"max_snaps"`
 	MaxGrow   int      `json:"max_grow"`
-	SysRmOnly bool     `json:"sys_rm_only"`        // Rm only where the system itself would delete (target and its parent not user-retained)
-	AllReads  bool     `json:"all_reads"`          // final oracle reads every (offset,len) pair
-	InitOps   []string `json:"init_ops"`           // executed before the path (not part of it)
-	ViaRPC    bool     `json:"via_rpc,omitempty"`  // reads and writes go through the real rpc.Client -> TCP loopback -> rpc.Server -> the same server
-	ViaREST   bool     `json:"via_rest,omitempty"` // management events go through the real clients and the replica/rest router (restapi.go)
+	SysRmOnly bool     `json:"sys_rm_only"`         // Rm only where the system itself would delete (target and its parent not user-retained)
+	AllReads  bool     `json:"all_reads"`           // final oracle reads every (offset,len) pair
+	InitOps   []string `json:"init_ops"`            // executed before the path (not part of it)
+	MaxChain  int      `json:"max_chain,omitempty"` // types.MaxChainLength for this run (0 = the default of 1024)
+	ViaRPC    bool     `json:"via_rpc,omitempty"`   // reads and writes go through the real rpc.Client -> TCP loopback -> rpc.Server -> the same server
+	ViaREST   bool     `json:"via_rest,omitempty"`  // management events go through the real clients and the replica/rest router (restapi.go)
 }
 
 func (c *Cfg) has(list []string, s string) bool {
@@ -227,6 +228,7 @@ func Exec(req *kernel.Request) (resp *kernel.Response) {
 
 func (x *inst) boot() error {
 	types.ShouldPunchHoles = x.cfg.Punch
+	types.MaxChainLength = x.cfg.MaxChain
 	types.DrainOps = types.DrainDone
 	x.srv = replica.NewServer("127.0.0.1:9502", x.dir, 512, "")
 	if err := os.MkdirAll(x.dir, 0755); err != nil {
@@ -285,6 +287,7 @@ func (x *inst) bootFromTemplate(cfg *Cfg) error {
 		templates[key] = t
 	}
 	types.ShouldPunchHoles = cfg.Punch
+	types.MaxChainLength = cfg.MaxChain
 	types.DrainOps = types.DrainDone
 	if err := copyDir(t.dir, x.dir); err != nil {
 		return fmt.Errorf("copy template: %v", err)
@@ -433,6 +436,12 @@ func (x *inst) apply(ev string) {
 	case "SnapU", "SnapA":
 		user := f[0] == "SnapU"
 		name := fmt.Sprintf("s%d", m.NSnap+1)
+		if x.cfg.MaxChain > 0 && m.Open && len(m.Chain) >= x.cfg.MaxChain-2 {
+			// the chain is at its configured limit (every file counts: snapshots, the new snapshot, the head and the
+			// unused slot 0): the request is refused and changes nothing - and what was accepted before still reopens
+			x.mustRefuse(ev, func() error { return x.api().Snapshot(name, user, created) }, true)
+			return
+		}
 		err := x.guard(ev, func() error { return x.api().Snapshot(name, user, created) })
 		x.observe("%s -> %v", ev, err != nil)
 		if !m.Open {
